@@ -28,6 +28,9 @@ pub fn configs(thorough: bool) -> Vec<EpCfg> {
                     c.alph.defer_pubrel = true;
                     c.alph.early_peer_traffic = true;
                     c.alph.send_fail = thorough;
+                    // a DISCONNECT that carries a Session Expiry Interval (0 or 100): the client's decides about the
+                    // session, one sent by a server decides nothing about the client's
+                    c.alph.disconnect_expiry0 = ver == Ver::V5 && auto && offline;
                     // a refused connection attempt (failure CONNACK sent or received) leaves the session alone
                     c.connacks.push(AckProf { ok: false, ..AckProf::basic(false) });
                     if auto && !offline && (thorough || role == RoleK::Client) {
